@@ -864,6 +864,13 @@ func classifyA(c CaseA) core.Class {
 	if rd.user != "" {
 		cl.Labels = append(cl.Labels, "names-operator")
 	}
+	online := c.B >= 0 && c.B < len(c.Users) && rd.user == c.Users[c.B].Name
+	if online {
+		cl.Labels = append(cl.Labels, "names-ONLINE-operator")
+		if rd.verdict == mustReject {
+			cl.Labels = append(cl.Labels, "names-ONLINE-operator+no-valid-digest")
+		}
+	}
 	if c.B >= 0 {
 		cl.Labels = append(cl.Labels, "with-operator-B")
 	}
@@ -884,7 +891,7 @@ func classifyA(c CaseA) core.Class {
 	}
 	inflight := len(c.Pre) > 0 || len(c.Conc) > 0
 	cl.NonTrivial = rd.user != "" || inflight
-	cl.Fingerprint = fmt.Sprintf("%s|%s|op=%v|B=%v|pre=%v|conc=%v|post=%v|fol=%v", key, rd.verdict, rd.user != "", c.B >= 0, len(c.Pre) > 0, len(c.Conc) > 0, len(c.Post) > 0, len(c.Follow) > 0)
+	cl.Fingerprint = fmt.Sprintf("%s|%s|op=%v|online=%v|B=%v|pre=%v|conc=%v|post=%v|fol=%v", key, rd.verdict, rd.user != "", online, c.B >= 0, len(c.Pre) > 0, len(c.Conc) > 0, len(c.Post) > 0, len(c.Follow) > 0)
 	return cl
 }
 
